@@ -204,7 +204,39 @@ impl Controller for Ctl {
         }
         match self.mode.load(Ordering::Relaxed) {
             MODE_NOISE => self.noise(id, in_lock),
-            MODE_YIELD => std::thread::yield_now(),
+            MODE_YIELD => {
+                // (Miri) yield at about half of the points, chosen by the per-thread seeded PRNG
+                // (Miri) a per-scenario subset of the points yields almost always, the rest rarely: with
+                // -Zmiri-preemption-rate=0 this is a seeded scheduler over the H1 points
+                if !in_lock && (id as usize) < NPOINTS {
+                    let partner = self.rdv_partner[id as usize].load(Ordering::Relaxed);
+                    if partner != 0 {
+                        // rendezvous by yielding: wait (bounded) until the partner thread stands at its point
+                        self.rdv_at[id as usize].store(true, Ordering::SeqCst);
+                        let mut met = false;
+                        for _ in 0..60 {
+                            if self.rdv_at[partner as usize].load(Ordering::SeqCst) {
+                                met = true;
+                                break;
+                            }
+                            std::thread::yield_now();
+                        }
+                        if met {
+                            self.rdv_met.fetch_add(1, Ordering::Relaxed);
+                            // let the partner observe us before the flag is cleared
+                            std::thread::yield_now();
+                        }
+                        self.rdv_at[id as usize].store(false, Ordering::SeqCst);
+                        return;
+                    }
+                }
+                let mask = crate::prng::mix(self.seed.load(Ordering::Relaxed) ^ 0x9d);
+                let hot = (mask >> (id % 64)) & 1 == 1;
+                let r = self.with_thread_prng(|p| p.below(100));
+                if (hot && r < 85) || (!hot && r < 8) {
+                    std::thread::yield_now()
+                }
+            }
             MODE_SCHED => {
                 let mut s = self.sched.lock().unwrap();
                 if s.log_points && s.point_log.len() < 100_000 {
